@@ -76,7 +76,7 @@ pub fn c06(out: &mut Vec<String>, rng: &mut Rng, tier: &str) {
         }
         let dof = match i % 5 {
             0 => (1 + i / 5 % 300) as f64,
-            1 => 0.25 + rng.unit() * 40.0,
+            1 => 1.0 + rng.unit() * 40.0, // the property quantifies over dof >= 1 (the least the public API can reach)
             2 => (10.0f64).powf(rng.unit() * 5.0),
             3 => 99_990.0 + (i / 5 % 25) as f64,
             _ => (10.0f64).powf(4.0 + rng.unit() * 1.3),
